@@ -1853,10 +1853,12 @@ where
             }
             Message::Subscribe(subscribe) => {
                 // Filter announcements by interest.
+                // Nb. An empty or inverted time range matches nothing.
+                let until = subscribe.until.max(subscribe.since);
                 match self
                     .db
                     .gossip()
-                    .filtered(&subscribe.filter, subscribe.since, subscribe.until)
+                    .filtered(&subscribe.filter, subscribe.since, until)
                 {
                     Ok(anns) => {
                         for ann in anns {
